@@ -66,3 +66,10 @@ Print Assumptions bad_first_message_rejected.
 (* the codes of the malformations the statement lists, from the reader
    (Cut.v / Envelope.v): oversize -> invalid_argument, truncated or short frame
    -> invalid_argument or unknown, see Props/C04.v and Props/C09.v *)
+
+(* the rejection (and every other response) never carries an encoding header with an empty
+   value: the header is the negotiated response algorithm, and a refusal negotiates identity *)
+Theorem response_encoding_header_is_a_name : forall registered sent accept e,
+  response_encoding_header (negotiate registered sent accept) = Some e -> e <> [].
+Proof. exact response_encoding_header_nonempty_lemma. Qed.
+Print Assumptions response_encoding_header_is_a_name.
